@@ -36,7 +36,8 @@ let () =
            match mstep09 c (Option.get !mon) op out with
            | (Ok, m') -> mon := Some m'
            | (Bad t, _) -> bad := Some (!pos, c09_tag t) in
-         if is_cbs o then
+         if String.trim r = "SKIPPED" then ()                  (* after a FAULT the harness is gone: nothing to judge *)
+         else if is_cbs o then
            (match int_of_string_opt (String.trim r) with
             | Some n -> step Cbs (Count (n_of_int n))
             | None -> ())                                     (* SKIPPED after a fault *)
